@@ -64,6 +64,10 @@ func (s logonState) Timeout(session *session, e internal.Event) (nextState sessi
 	case internal.LogonTimeout:
 		session.log.OnEvent("Timed out waiting for logon response")
 		return latentState{}
+	case internal.NeedHeartbeat:
+		// Nothing to send before the logon completes; keep the timer running so that heartbeats
+		// are due once it has.
+		session.stateTimer.Reset(session.HeartBtInt)
 	}
 	return s
 }
